@@ -38,6 +38,7 @@ def run(ctx):
     R5 = rep.rule('C01.R5', 'insert returns the keep-first winner; add_asset/add_any/Cache::insert return that result', floor=5)
     R6 = rep.rule('C01.R6', 'CacheEntry is a Box newtype and is the map value type; inner() derefs the box', floor=4)
     S1 = rep.rule('C07.R1', 'every access to the stored value is classified: read under a guard / get behind the panic / write in the guard region / owned (shared with C07)', floor=2)
+    R8 = rep.rule('C01.R8', 'presence never flips back to absent: a look-up reports "absent" only when the map has no entry (blocking lock, no other way out)', floor=2)
     R7 = rep.rule('C01.R7', 'get_shard and get_shard_mut have the same normal form; shards are indexed only there', floor=2)
     rep.assumptions += [
         'user Drop impls of stored values, Hash/Eq of key types and Source implementations do not re-enter the same cache while a shard lock is held',
@@ -53,11 +54,46 @@ def run(ctx):
         # "the handle stays valid and READABLE": every access to the stored value is lock-disciplined
         from c07 import r1 as value_access_discipline
         value_access_discipline(S1, cfg, F, 'hot-reloading' in ctx.cfg_features[cfg])
-        for r in (R1, R2, R3, R4, R5, R6, R7, S1):
+        r8(R8, cfg, F)
+        for r in (R1, R2, R3, R4, R5, R6, R7, R8, S1):
             r.finish_cfg(cfg)
 
 
 # ---------------------------------------------------------------------------
+
+def r8(R8, cfg, F):
+    """`AssetMap::get` answers None, and `contains_key` false, only when the hash map itself has no such entry: a look-up
+    that gives up for another reason (a lock it did not wait for, a shortcut) makes an entry that a completed load
+    returned look absent to get_cached, although nothing removed it."""
+    for m in MAPS:
+        b = F.body('<%s as anycache::AssetMap>::get' % m)
+        if not b:
+            R8.missing(cfg, '%s::get' % m)
+            continue
+        look = [c for c in b.calls() if map_call_kind(c) == 'READ' and c.callee.name == 'get']
+        ok = len(look) == 1
+        why = 'exactly one HashMap::get expected'
+        if ok:
+            me = [['call@bb%d' % look[0].bb]]
+            nones = [bb for bb, _, st in b.assigns() if st['place']['l'] == 0 and not st['place']['p'] and st['rv']['k'] == 'aggregate' and st['rv'].get('variant_name') == 'None']
+            ok = all(common.guarded_by_variant(b, bb, me, 0) for bb in nones)
+            why = 'a path answers None although the map look-up did not (or was not made)'
+            if ok:
+                # every way to the look-up is unconditional (no fallible acquisition in front of it) and blocking
+                g = [x for x in common.guards_of(b, look[0].bb)]
+                acq = [c for c in b.calls() if c.callee and re.search(r'::try_(read|write|lock|borrow|borrow_mut)$', c.callee.best)]
+                ok = not g and not acq
+                why = 'the look-up itself is conditional, or the lock is not waited for (%s)' % ([c.callee.best for c in acq] or 'guarded')
+        R8.check(ok, cfg, b.path, 'absent-only-if-not-in-map', 'AssetMap::get: %s' % why, b.loc())
+        cb = F.body('<%s as anycache::AssetMap>::contains_key' % m)
+        if not cb:
+            R8.missing(cfg, '%s::contains_key' % m)
+            continue
+        ck = [c for c in cb.calls() if map_call_kind(c) == 'READ' and c.callee.name == 'contains_key']
+        acq = [c for c in cb.calls() if c.callee and re.search(r'::try_(read|write|lock|borrow|borrow_mut)$', c.callee.best)]
+        ok = len(ck) == 1 and not acq and not common.guards_of(cb, ck[0].bb) and cb.origins(0) == {('call', ck[0].bb)}
+        R8.check(ok, cfg, cb.path, 'contains=map.contains_key', 'AssetMap::contains_key must be the map\'s own answer, unconditionally', cb.loc())
+
 
 def map_sites(F):
     out = []
